@@ -732,3 +732,60 @@ def shrink_x(case):
             yield dict(case, **{k: case[k][:-1]})
     if case.get("extra", 0) > 1:
         yield dict(case, extra=1)
+
+
+# ============================================================================== c11p
+# pipelines: a source under 2-3 unary combinators
+STAGES = {"map": "fn", "inspect": None, "filter": "pr", "filter_map": "op", "flat_map": "ls",
+          "take_while": "pr", "skip_while": "pr", "take": "n", "skip": "n", "fuse": None}
+GNAME = {"map": "GMap", "inspect": "GInspect", "filter": "GFilter", "filter_map": "GFilterMap",
+         "flat_map": "GFlatMap", "take_while": "GTakeWhile", "skip_while": "GSkipWhile",
+         "take": "GTake", "skip": "GSkip", "fuse": "GFuse"}
+
+
+def g_stage(st):
+    kind = STAGES[st["op"]]
+    if kind == "n":
+        return "(%s %d)" % (GNAME[st["op"]], st["n"])
+    if kind:
+        return "(%s %s)" % (GNAME[st["op"]], g_closure(kind, st["fn"]))
+    return GNAME[st["op"]]
+
+
+def c11p_term(case, res):
+    if "trace" not in res:
+        return 3
+    stages = case["stages"]
+    nflat = sum(1 for s in stages if s["op"] == "flat_map")
+    horizon = 24 + len(res["trace"]) + 4 * len(case["ins"][0]["s"]) * (3 ** nflat)
+    pc = "(PCase %d [%s] %s %s)" % (horizon, "; ".join(g_stage(s) for s in stages[:-1]),
+                                    g_stage(stages[-1]), g_src(case["ins"][0]))
+    return "pchk %s %s" % (pc, g_trace(res["trace"]))
+
+
+def rand_pipe(rng):
+    depth = rng.range(2, 3)
+    stages = []
+    for _ in range(depth):
+        op = rng.choice(sorted(STAGES))
+        st = {"op": op}
+        kind = STAGES[op]
+        if kind == "n":
+            st["n"] = rng.below(5)
+        elif kind:
+            st["fn"] = rng.choice(VOCAB[kind])
+        stages.append(st)
+    return {"k": "c11p", "stages": stages, "extra": rng.range(1, 3),
+            "ins": [rand_input(rng, rng.choice([4, 8]), rng.choice([0, 2, 4]), rng.chance(2, 3))]}
+
+
+def shrink_pipe(case):
+    if len(case["stages"]) > 1:
+        for i in range(len(case["stages"])):
+            yield dict(case, stages=case["stages"][:i] + case["stages"][i + 1:])
+    inp = case["ins"][0]
+    s = inp["s"]
+    for j in range(len(s)):
+        yield dict(case, ins=[dict(inp, s=s[:j] + s[j + 1:])])
+    if inp.get("lo", 0) != 0 or inp.get("hi") not in (0, None):
+        yield dict(case, ins=[dict(inp, lo=0, hi=0)])
